@@ -27,177 +27,9 @@ func runC16(c *Ctx) {
 	c.rule("R16.4", "the client-side reverse handler takes its alias table from the client configuration")
 	c.rule("R16.5", "handlers run on their own goroutine (a reverse call from a handler cannot deadlock the executor)")
 
-	// builder field: func(context.Context, *T_conn) (context.Context, error)
-	isBuilderType := func(t types.Type) bool {
-		sig, ok := t.Underlying().(*types.Signature)
-		if !ok || sig.Params().Len() != 2 || sig.Results().Len() != 2 {
-			return false
-		}
-		pt, ok := sig.Params().At(1).Type().(*types.Pointer)
-		return ok && pt.Elem() == types.Type(r.TConn) && isNamed(sig.Params().At(0).Type(), "context", "Context")
-	}
-	var builders []*ssa.Function
-	for _, fn := range p.Funcs {
-		if pkgOf(fn) == p.Root.Pkg && fn.Parent() != nil && isBuilderType(fn.Signature) && fn.Signature.Recv() == nil {
-			// generic origin only (instantiations duplicate it)
-			if fn.Origin() != nil || (fn.Parent() != nil && outermost(fn).Origin() != nil) {
-				continue
-			}
-			builders = append(builders, fn)
-		}
-	}
-	if len(builders) == 0 {
-		c.und("R16.1", "reverse-client builder", "-", "no function literal of the builder type found")
-	}
-	for _, b := range builders {
-		ctxP, connP := b.Params[0], b.Params[1]
-		construct := fmt.Sprintf("%s: reverse client is built per connection", fname(b))
-		okAll := true
-		// client object allocated inside (the builder or a helper it calls)
-		var clAlloc *ssa.Alloc
-		inB := map[*ssa.Function]bool{}
-		for _, g := range p.cone(b) {
-			inB[g] = true
-		}
-		p.coneInstrs(b, func(in ssa.Instruction) {
-			if al, ok := in.(*ssa.Alloc); ok && al.Type().(*types.Pointer).Elem() == types.Type(r.TClient) && al.Heap {
-				clAlloc = al
-			}
-		})
-		isCl := func(v ssa.Value) bool {
-			return clAlloc != nil && c.allOrigins(v, func(a apath) bool { return a.Root == ssa.Value(clAlloc) && len(a.Fields) == 0 })
-		}
-		if clAlloc == nil {
-			// any use of a client object captured from outside?
-			okAll = false
-			c.bad("R16.1", construct, p.pos(b.Pos()), "the client object behind the reverse proxy is not allocated inside the builder (it is shared by all connections): each new connection re-points it, so reverse calls made for earlier clients go to the newest client")
-		}
-		// request queue: result of a call on that client, stored into connP.requests
-		if clAlloc != nil {
-			var qStore *ssa.Store
-			for _, u := range usesOfKind(p.uses(r.FRequests), "store") {
-				if !inB[u.Fn] {
-					continue
-				}
-				qStore = u.At.(*ssa.Store)
-				if !c.isParamOrForwarded(u.Base, connP) {
-					okAll = false
-					c.bad("R16.1", construct, c.ipos(u.At), "the request queue is installed on something other than the connection the builder was given")
-				}
-			}
-			if qStore == nil {
-				okAll = false
-				c.bad("R16.1", construct, p.pos(b.Pos()), "the builder does not install a request queue on the connection: reverse calls are never sent")
-			} else {
-				call, ok := stripConv(qStore.Val).(*ssa.Call)
-				if !ok || len(call.Common().Args) == 0 || !(call.Common().Args[0] == ssa.Value(clAlloc) || isCl(call.Common().Args[0])) {
-					okAll = false
-					c.bad("R16.1", construct, c.ipos(qStore), "the queue installed on the connection is not the one this invocation's client sends on")
-				} else if f := p.unbound(staticCallee(call)); f != nil {
-					// the callee makes the channel per call
-					made := false
-					allInstrs(f, func(x ssa.Instruction) {
-						if mk, ok := x.(*ssa.MakeChan); ok {
-							if ch, ok := mk.Type().Underlying().(*types.Chan); ok && ch.Elem() == types.Type(r.TCreq) {
-								made = true
-							}
-						}
-					})
-					if !made {
-						okAll = false
-						c.bad("R16.1", construct, c.ipos(call), "the request queue is not freshly made for this connection")
-					}
-				}
-			}
-			// exit signal binding
-			bound := false
-			for _, sv := range c.liftedFieldWrites(r.FCExiting) {
-				if !inB[sv.At.Parent()] || sv.Base == nil {
-					continue
-				}
-				if sv.Base == ssa.Value(clAlloc) || isCl(sv.Base) {
-					if base, ok := loadsField(stripConv(sv.Val), r.FExiting); ok && c.isParamOrForwarded(base, connP) {
-						bound = true
-					}
-				}
-			}
-			if !bound {
-				okAll = false
-				c.bad("R16.1", construct, p.pos(b.Pos()), "the reverse client's exit signal is not the exit signal of the connection it was built for: reverse calls block (or fail) independently of that connection's life")
-			}
-			// formatter from server config: plumbing handled under C12
-		}
-		// proxy struct allocated inside, provided, and placed into the returned context
-		var wv *ssa.Call
-		p.coneInstrs(b, func(in ssa.Instruction) {
-			if ci, ok := in.(*ssa.Call); ok && calleeName(ci) == "context.WithValue" {
-				wv = ci
-			}
-		})
-		if wv == nil {
-			okAll = false
-			c.bad("R16.1", construct, p.pos(b.Pos()), "the proxy is not placed into the returned context")
-		} else {
-			val := stripConv(wv.Common().Args[2])
-			al, isAl := val.(*ssa.Alloc)
-			if !isAl {
-				// built by a helper of the builder: every (non-nil) origin is an allocation made in the builder's cone
-				for _, o := range c.origins(val) {
-					if len(o.Fields) == 0 && isNilConst(o.Root) {
-						continue
-					}
-					a2, ok := o.Root.(*ssa.Alloc)
-					if !ok || len(o.Fields) != 0 {
-						al, isAl = nil, false
-						break
-					}
-					al, isAl = a2, true
-				}
-			}
-			if !isAl || !inB[al.Parent()] {
-				okAll = false
-				c.bad("R16.1", construct, c.ipos(wv), "the proxy placed into the context is not allocated by this invocation of the builder: connections share one proxy")
-			} else if clAlloc != nil {
-				// provided by this client: a call taking clAlloc as receiver whose slice argument contains al
-				provided := false
-				p.coneInstrs(b, func(in ssa.Instruction) {
-					ci, ok := in.(*ssa.Call)
-					if !ok || len(ci.Common().Args) < 2 || !(ci.Common().Args[0] == ssa.Value(clAlloc) || isCl(ci.Common().Args[0])) {
-						return
-					}
-					if c.dependsOn(ci.Common().Args[1], func(v ssa.Value) bool { return v == ssa.Value(al) }, 0, map[ssa.Value]bool{}) {
-						provided = true
-					}
-				})
-				if !provided {
-					okAll = false
-					c.bad("R16.1", construct, c.ipos(wv), "the proxy placed into the context was not filled in by this invocation's client")
-				}
-			}
-			isCtxP := func(v ssa.Value) bool { return c.isParamOrForwarded(v, ctxP) }
-			if !isCtxP(wv.Common().Args[0]) && !c.ctxDerives(wv.Common().Args[0], isCtxP, 0, map[ssa.Value]bool{}) {
-				okAll = false
-				c.bad("R16.1", construct, c.ipos(wv), "the returned context does not derive from the context the builder was given")
-			}
-			// returned on the success path
-			retOK := false
-			allInstrs(b, func(in ssa.Instruction) {
-				if rt, ok := in.(*ssa.Return); ok && len(rt.Results) == 2 {
-					if rt.Results[0] == ssa.Value(wv) || c.someOrigin(rt.Results[0], func(a apath) bool { return a.Root == ssa.Value(wv) && len(a.Fields) == 0 }) {
-						retOK = true
-					}
-				}
-			})
-			if !retOK {
-				okAll = false
-				c.bad("R16.1", construct, c.ipos(wv), "the context carrying the proxy is not what the builder returns")
-			}
-		}
-		if okAll {
-			c.ok("R16.1", construct, p.pos(b.Pos()), "client, queue and proxy allocated per invocation; queue and exit signal bound to the given connection; proxy in the returned context")
-		}
-	}
-
+	isBuilderType, builders := c.reverseClientFresh("R16.1")
+	_ = isBuilderType
+	_ = builders
 	// ---- R16.2
 	{
 		var fBuilder []*types.Var
@@ -348,6 +180,8 @@ func runC16(c *Ctx) {
 	// ---- R16.6
 	c.rule("R16.7", "a reverse call made while the connection goes away fails instead of blocking: the hand-over to the connection loop is a rendezvous (unbuffered queue), so no request is left in a buffer that nobody drains")
 	c.unbufferedQueue("R16.7")
+	c.rule("R16.10", "every client-handler registration is kept (the option appends on every path; several objects may serve one namespace)")
+	c.handlerRegistrationsKept("R16.10")
 	c.rule("R16.9", "a reverse call or notification picked up while the connection is going away is answered, not dropped: the accept arm is total for both id polarities")
 	c.acceptArmRule("R16.9")
 	c.rule("R16.8", "nested calls complete: the frame executor (which delivers the responses of reverse calls) never blocks on something only a finishing handler releases")
@@ -377,4 +211,240 @@ func mustPrecedeOrUnreached(fn *ssa.Function, a, b ssa.Instruction) bool {
 	// i.e. they do not pass through the block of a at all — which is what "avoid a" already means. The builder is optional,
 	// so the only thing to exclude is b occurring before a on a path that later reaches a.
 	return reachFrom(b, func(x ssa.Instruction) bool { return x == a }, nil) == nil
+}
+
+// reverseClientFresh: R16.1 (also registered under C02): the reverse client, its request queue and its
+// proxy are built per connection inside the builder and bound to that connection's queue and exit signal.
+func (c *Ctx) reverseClientFresh(rule string) (func(types.Type) bool, []*ssa.Function) {
+	p, r := c.P, c.R
+	w := c.ws()
+	_ = w
+	// builder field: func(context.Context, *T_conn) (context.Context, error)
+	isBuilderType := func(t types.Type) bool {
+		sig, ok := t.Underlying().(*types.Signature)
+		if !ok || sig.Params().Len() != 2 || sig.Results().Len() != 2 {
+			return false
+		}
+		pt, ok := sig.Params().At(1).Type().(*types.Pointer)
+		return ok && pt.Elem() == types.Type(r.TConn) && isNamed(sig.Params().At(0).Type(), "context", "Context")
+	}
+	var builders []*ssa.Function
+	for _, fn := range p.Funcs {
+		if pkgOf(fn) == p.Root.Pkg && fn.Parent() != nil && isBuilderType(fn.Signature) && fn.Signature.Recv() == nil {
+			// generic origin only (instantiations duplicate it)
+			if fn.Origin() != nil || (fn.Parent() != nil && outermost(fn).Origin() != nil) {
+				continue
+			}
+			builders = append(builders, fn)
+		}
+	}
+	if len(builders) == 0 {
+		c.und(rule, "reverse-client builder", "-", "no function literal of the builder type found")
+	}
+	for _, b := range builders {
+		ctxP, connP := b.Params[0], b.Params[1]
+		construct := fmt.Sprintf("%s: reverse client is built per connection", fname(b))
+		okAll := true
+		// client object allocated inside (the builder or a helper it calls)
+		var clAlloc *ssa.Alloc
+		inB := map[*ssa.Function]bool{}
+		for _, g := range p.cone(b) {
+			inB[g] = true
+		}
+		p.coneInstrs(b, func(in ssa.Instruction) {
+			if al, ok := in.(*ssa.Alloc); ok && al.Type().(*types.Pointer).Elem() == types.Type(r.TClient) && al.Heap {
+				clAlloc = al
+			}
+		})
+		isCl := func(v ssa.Value) bool {
+			return clAlloc != nil && c.allOrigins(v, func(a apath) bool { return a.Root == ssa.Value(clAlloc) && len(a.Fields) == 0 })
+		}
+		if clAlloc == nil {
+			// any use of a client object captured from outside?
+			okAll = false
+			c.bad(rule, construct, p.pos(b.Pos()), "the client object behind the reverse proxy is not allocated inside the builder (it is shared by all connections): each new connection re-points it, so reverse calls made for earlier clients go to the newest client")
+		}
+		// request queue: result of a call on that client, stored into connP.requests
+		if clAlloc != nil {
+			var qStore *ssa.Store
+			for _, u := range usesOfKind(p.uses(r.FRequests), "store") {
+				if !inB[u.Fn] {
+					continue
+				}
+				qStore = u.At.(*ssa.Store)
+				if !c.isParamOrForwarded(u.Base, connP) {
+					okAll = false
+					c.bad(rule, construct, c.ipos(u.At), "the request queue is installed on something other than the connection the builder was given")
+				}
+			}
+			if qStore == nil {
+				okAll = false
+				c.bad(rule, construct, p.pos(b.Pos()), "the builder does not install a request queue on the connection: reverse calls are never sent")
+			} else {
+				call, ok := stripConv(qStore.Val).(*ssa.Call)
+				if !ok || len(call.Common().Args) == 0 || !(call.Common().Args[0] == ssa.Value(clAlloc) || isCl(call.Common().Args[0])) {
+					okAll = false
+					c.bad(rule, construct, c.ipos(qStore), "the queue installed on the connection is not the one this invocation's client sends on")
+				} else if f := p.unbound(staticCallee(call)); f != nil {
+					// the callee makes the channel per call
+					made := false
+					allInstrs(f, func(x ssa.Instruction) {
+						if mk, ok := x.(*ssa.MakeChan); ok {
+							if ch, ok := mk.Type().Underlying().(*types.Chan); ok && ch.Elem() == types.Type(r.TCreq) {
+								made = true
+							}
+						}
+					})
+					if !made {
+						okAll = false
+						c.bad(rule, construct, c.ipos(call), "the request queue is not freshly made for this connection")
+					}
+				}
+			}
+			// exit signal binding
+			bound := false
+			for _, sv := range c.liftedFieldWrites(r.FCExiting) {
+				if !inB[sv.At.Parent()] || sv.Base == nil {
+					continue
+				}
+				if sv.Base == ssa.Value(clAlloc) || isCl(sv.Base) {
+					if base, ok := loadsField(stripConv(sv.Val), r.FExiting); ok && c.isParamOrForwarded(base, connP) {
+						bound = true
+					}
+				}
+			}
+			if !bound {
+				okAll = false
+				c.bad(rule, construct, p.pos(b.Pos()), "the reverse client's exit signal is not the exit signal of the connection it was built for: reverse calls block (or fail) independently of that connection's life")
+			}
+			// formatter from server config: plumbing handled under C12
+		}
+		// proxy struct allocated inside, provided, and placed into the returned context
+		var wv *ssa.Call
+		p.coneInstrs(b, func(in ssa.Instruction) {
+			if ci, ok := in.(*ssa.Call); ok && calleeName(ci) == "context.WithValue" {
+				wv = ci
+			}
+		})
+		if wv == nil {
+			okAll = false
+			c.bad(rule, construct, p.pos(b.Pos()), "the proxy is not placed into the returned context")
+		} else {
+			val := stripConv(wv.Common().Args[2])
+			al, isAl := val.(*ssa.Alloc)
+			if !isAl {
+				// built by a helper of the builder: every (non-nil) origin is an allocation made in the builder's cone
+				for _, o := range c.origins(val) {
+					if len(o.Fields) == 0 && isNilConst(o.Root) {
+						continue
+					}
+					a2, ok := o.Root.(*ssa.Alloc)
+					if !ok || len(o.Fields) != 0 {
+						al, isAl = nil, false
+						break
+					}
+					al, isAl = a2, true
+				}
+			}
+			if !isAl || !inB[al.Parent()] {
+				okAll = false
+				c.bad(rule, construct, c.ipos(wv), "the proxy placed into the context is not allocated by this invocation of the builder: connections share one proxy")
+			} else if clAlloc != nil {
+				// provided by this client: a call taking clAlloc as receiver whose slice argument contains al
+				provided := false
+				p.coneInstrs(b, func(in ssa.Instruction) {
+					ci, ok := in.(*ssa.Call)
+					if !ok || len(ci.Common().Args) < 2 || !(ci.Common().Args[0] == ssa.Value(clAlloc) || isCl(ci.Common().Args[0])) {
+						return
+					}
+					if c.dependsOn(ci.Common().Args[1], func(v ssa.Value) bool { return v == ssa.Value(al) }, 0, map[ssa.Value]bool{}) {
+						provided = true
+					}
+				})
+				if !provided {
+					okAll = false
+					c.bad(rule, construct, c.ipos(wv), "the proxy placed into the context was not filled in by this invocation's client")
+				}
+			}
+			isCtxP := func(v ssa.Value) bool { return c.isParamOrForwarded(v, ctxP) }
+			if !isCtxP(wv.Common().Args[0]) && !c.ctxDerives(wv.Common().Args[0], isCtxP, 0, map[ssa.Value]bool{}) {
+				okAll = false
+				c.bad(rule, construct, c.ipos(wv), "the returned context does not derive from the context the builder was given")
+			}
+			// returned on the success path
+			retOK := false
+			allInstrs(b, func(in ssa.Instruction) {
+				if rt, ok := in.(*ssa.Return); ok && len(rt.Results) == 2 {
+					if rt.Results[0] == ssa.Value(wv) || c.someOrigin(rt.Results[0], func(a apath) bool { return a.Root == ssa.Value(wv) && len(a.Fields) == 0 }) {
+						retOK = true
+					}
+				}
+			})
+			if !retOK {
+				okAll = false
+				c.bad(rule, construct, c.ipos(wv), "the context carrying the proxy is not what the builder returns")
+			}
+		}
+		if okAll {
+			c.ok(rule, construct, p.pos(b.Pos()), "client, queue and proxy allocated per invocation; queue and exit signal bound to the given connection; proxy in the returned context")
+		}
+	}
+
+	return isBuilderType, builders
+}
+
+// handlerRegistrationsKept: R16.10. Each WithClientHandler option adds a handler for reverse calls;
+// several handler objects may share a namespace (their methods are merged). The option therefore
+// appends on every path: an early return that overwrites an earlier registration of the same namespace
+// makes the earlier object's methods answer "method not found".
+func (c *Ctx) handlerRegistrationsKept(rule string) {
+	p := c.P
+	n := 0
+	for _, fn := range p.Funcs {
+		if pkgOf(fn) != p.Root.Pkg || fn.Parent() == nil || len(fn.Params) != 1 {
+			continue
+		}
+		pt, ok := fn.Params[0].Type().(*types.Pointer)
+		if !ok || structOf(pt.Elem()) == nil {
+			continue
+		}
+		allInstrsRaw(fn, func(in ssa.Instruction) {
+			st, ok := in.(*ssa.Store)
+			if !ok {
+				return
+			}
+			fa, ok := st.Addr.(*ssa.FieldAddr)
+			if !ok || fa.X != ssa.Value(fn.Params[0]) {
+				return
+			}
+			sl, ok := fieldOfAddr(fa).Type().Underlying().(*types.Slice)
+			if !ok {
+				return
+			}
+			est := structOf(sl.Elem())
+			if est == nil {
+				return
+			}
+			hasObj := false
+			for i := 0; i < est.NumFields(); i++ {
+				if it, ok := est.Field(i).Type().Underlying().(*types.Interface); ok && it.Empty() {
+					hasObj = true
+				}
+			}
+			call, isCall := st.Val.(*ssa.Call)
+			if !hasObj || !isCall {
+				return
+			}
+			if b, ok := call.Common().Value.(*ssa.Builtin); !ok || b.Name() != "append" {
+				return
+			}
+			n++
+			construct := fmt.Sprintf("%s: handler registration appended", fname(fn))
+			ret := reachFromEntry(fn, isReturn, func(x ssa.Instruction) bool { return x == in })
+			c.check(ret == nil, rule, construct, c.ipos(in), "appended on every path", "the option can return without appending (it overwrites an earlier registration of the same namespace instead): the earlier handler object's methods are no longer served, reverse calls to them get 'method not found'")
+		})
+	}
+	if n == 0 {
+		c.und(rule, "handler registration option", "-", "no option appending a handler record found")
+	}
 }
